@@ -98,7 +98,7 @@ def handle : List String → Option String
   | ["c08iter", k, fuel, order, h, npts, a] =>
     some (match kindOf? k, fuel.toNat?, order.toNat?, iOfStr? h, npts.toNat?, args? a with
       | some k, some fuel, some order, some h, some npts, some a =>
-        runStr (iterRun (mkWorld k order h npts) fuel 0 a).2
+        runStr (iterRun (mkWorld k order h npts) fuel 0 a false).2
       | _, _, _, _, _, _ => "bad-op")
   | "c08hist" :: k :: fuel :: order :: h :: npts :: nls :: calls =>
     some (match kindOf? k, fuel.toNat?, order.toNat?, iOfStr? h, npts.toNat?, nls.toNat?, calls.mapM call? with
